@@ -3,7 +3,10 @@ TR = "Tracked(tr)"
 LOCK = ("sub", "R8-lock", r"(?:self\s*\.\s*)?circuit\s*\.\s*lock\(\)\s*\.\s*await", None)
 def lockrule(n):
     return ("sub", "R8-lock", r"((?:self\s*\.\s*)?circuit)\s*\.\s*lock\(\)\s*\.\s*await", r"vx_lock(&\1, Tracked(tr))", n)
-WRAP = lambda op: dict(file="lib", rules=[lockrule(1), ("addarg", [op], TR, 1), ("inject", None, "start", "broadcast use lemma_counts_push;")])
+# a wrapper either locks the circuit and calls the operation on it, or delegates to another wrapper of the same handle
+WRAP = lambda op: dict(file="lib", rules=[
+    ("sub", "R3-self-delegation", r"\bself\s*\.\s*(force_open|force_closed|reset|state|metrics)\(\)\s*\.\s*await", r"self.\1(Tracked(tr))", -1),
+    lockrule(-1), ("addarg", [op], TR, 1), ("inject", None, "start", "broadcast use lemma_counts_push;")])
 CALL = [
     ("R4",), lockrule(None), ("R3",),
     ("sub", "R5-traced", r"(?:std::time::)?Instant::now\(\)", "vx_now(clk, Tracked(tr))", -1),
